@@ -483,7 +483,12 @@ pub fn check(scn: &Scenario, c: &mut Counters) -> Verdict {
         );
     }
     for (i, (o, e)) in outcomes.iter().zip(expected.iter()).enumerate() {
-        if &o.value != e {
+        // how a user-function failure is wrapped (name, carried error) is C11's business
+        let same = match (&o.value, e) {
+            (Res::Err(a), Res::Err(b)) if a.class == "UserFunctionError" && b.class == "UserFunctionError" => true,
+            (a, b) => a == b,
+        };
+        if !same {
             return Verdict::violation(
                 "outcome-differs",
                 format!("rule {i} ({}) observed {:?} expected {:?}", scn.rules[i].name, o.value, e),
